@@ -184,23 +184,27 @@ Definition frame_info (st : list valuetype) : string * string :=
   else if is_profile_type st contentionz_types then ("<lock>", "")
   else ("<cpu>", "")%string.
 
+Definition mk_loc (a_i : Z * Z) (id : Z) : location :=
+  {| l_id := id; l_mapping := snd a_i; l_addr := fst a_i; l_lines := []; l_folded := false |}.
+Fixpoint mk_locations (l : list (Z * Z)) (id : Z) : list location :=
+  match l with [] => [] | x :: r => mk_loc x id :: mk_locations r (id + 1) end.
+Definition sample_addrs (cleanup : bool) (s : rsample) : list Z :=
+  if cleanup then cleanup_dup (rs_addrs s) else rs_addrs s.
+Definition mk_sample (cleanup : bool) (locs : list Z) (s : rsample) : sample :=
+  {| s_loc := map (fun a => index_of a locs 1) (sample_addrs cleanup s);
+     s_val := rs_vals s; s_label := [];
+     s_numlabel := match rs_bytes s with Some b => [("bytes"%string, [b])] | None => [] end;
+     s_numunit := [] |}.
+
 (* ParseMemoryMapFromScanner's tail + addLegacyFrameInfo (+ cleanupDuplicateLocations for the
    two parsers that call it after the ids exist) *)
 Definition finalize (cleanup : bool) (x : pre) (maps : list mapping) : profile :=
   let ms0 := fix_main_start (drop_hugepage (massage maps)) in
   let locs := first_uses (List.concat (map rs_addrs (pr_samples x))) in
   let '((ms1, _), lmap) := assign_all (ms0, None) locs in
-  let mk_loc (a_i : Z * Z) (id : Z) : location :=
-    {| l_id := id; l_mapping := snd a_i; l_addr := fst a_i; l_lines := []; l_folded := false |} in
-  let locations := (fix go (l : list (Z * Z)) (id : Z) : list location :=
-                      match l with [] => [] | x :: r => mk_loc x id :: go r (id + 1) end) (combine locs lmap) 1 in
-  let mk_sample (s : rsample) : sample :=
-    {| s_loc := map (fun a => index_of a locs 1) (if cleanup then cleanup_dup (rs_addrs s) else rs_addrs s);
-       s_val := rs_vals s; s_label := [];
-       s_numlabel := match rs_bytes s with Some b => [("bytes"%string, [b])] | None => [] end;
-       s_numunit := [] |} in
+  let locations := mk_locations (combine locs lmap) 1 in
   let '(dropf, keepf) := frame_info (pr_st x) in
-  {| p_sampletype := pr_st x; p_defaultsampletype := ""; p_sample := map mk_sample (pr_samples x);
+  {| p_sampletype := pr_st x; p_defaultsampletype := ""; p_sample := map (mk_sample cleanup locs) (pr_samples x);
      p_mapping := renumber 1 ms1; p_location := locations; p_function := []; p_comments := [];
      p_docurl := ""; p_dropframes := dropf; p_keepframes := keepf; p_timenanos := 0;
      p_durationnanos := pr_duration x; p_periodtype := Some (pr_pt x); p_period := pr_period x |}.
